@@ -40,6 +40,13 @@ def width_for(L, ls, R_, rs, radix, op):
 def rel_contract(op, L, El, Rh, Er, radix, le, re_):
     """value relation of the statement on the reps; le/re_ are C expressions of the (unsigned-storage) reps"""
     if op == 'multiply':
+        # product of the reps at exponent El+Er: the machine product of the promoted reps, exact because the precondition
+        # 'the exact value fits the result type' is the shared no-signed-overflow predicate (multiplication abstracted: congruence)
+        from vplib.speclib import builtin_sem
+        sm = builtin_sem('multiply', L, Rh, le, re_)
+        return Contract(requires=sm['requires'], ensures=['(%s)$RET == %s' % (sm['res'].ctype, sm['value'])], assigns=[],
+                        note='rep relation of C01 for *: ret == l * r on the promoted reps (result exponent El+Er is a compile-time fact)')
+    if op == 'multiply':
         ls = rs = 0
     else:
         m = min(El, Er)
@@ -93,8 +100,7 @@ TIER = ['quick']
 
 def c_plain(m, fi, tr):
     L, Rh = tyname(m['L']), tyname(m['Rh'])
-    if m['op'] == 'multiply' and L.bits + Rh.bits > (64 if TIER[0] == 'thorough' else 32):
-        return None     # same-circuit 64x64 multiply equality: beyond the SAT budgets, listed under not_applicable_parts
+
     return rel_contract(m['op'], L, 0, Rh, 0, 2, '(*a1)', '(*a2)')
 
 
@@ -169,13 +175,10 @@ def plan(tier):
             rs_ = [k for k, v in CT.ALIAS.items() if v == Res.name and k[0] in 'iu'][0]
             src.append(shim(rs_, sname, [(l, 'a'), (r, 'b')],
                             'return cnl::_impl::to_rep(cnl::_impl::from_rep<%s>(a) %s cnl::_impl::from_rep<%s>(b));' % (A, sym, B)))
-            hard = op == 'multiply' and L.bits + Rh.bits > 32
-            solvers = ('cadical', 'kissat') if hard else ('minisat',)
-            timeout = 900 if hard else 120
-            if hard and (not thorough or L.bits + Rh.bits > 64):
-                continue
+            solvers = ('minisat',)
+            timeout = 120
             orc = oracle_rel(op, L, el, Rh, er, radix)
-            common = dict(shim=sname, shim_types=[l, r], oracle=orc, prop=PROP, solvers=solvers, timeout=timeout, via=sname)
+            common = dict(shim=sname, shim_types=[l, r], oracle=orc, prop=PROP, solvers=solvers, timeout=timeout, via=sname, abstract_mul=(op == 'multiply'))
             # exponent rule (compile-time fact): min for + and -, sum for *
             want = el + er if op == 'multiply' else min(el, er)
             src.append(fact_shim('exp_%s_%s' % (op, tag), 'cnl::_impl::tag_of_t<decltype(%s{} %s %s{})>::exponent' % (A, sym, B)))
@@ -190,11 +193,11 @@ def plan(tier):
     k = Kernel(kname, ''.join(src), [], 'scaled_integer operators')
     # leaf jobs: every default_scale / plain operator instantiation present in the kernel gets its own proof
     jobs.append(('LEAVES', kname, P_SCALE, c_scale, 'L0.default_scale'))
-    jobs.append(('LEAVES', kname, P_PLAIN, c_plain, 'L0.plain_op', dict(solvers=('cadical', 'kissat'), timeout=900)))
+    jobs.append(('LEAVES', kname, P_PLAIN, c_plain, 'L0.plain_op', dict(abstract_mul=True, timeout=120)))
     jobs.append(('LEAVES', kname, P_MINUS, c_minus, 'L0.minus_op'))
     meta = {'instantiations': len(INST_T if thorough else INST_Q) * 3,
             'explanation': 'value relation of the statement proved per layer; exponent and rep-type rules are compile-time facts read from the IR',
-            'not_applicable_parts': ['64x64-bit and wider rep multiplication: same-circuit equality beyond SAT budgets (multiply is claimed up to 32x32 bits thorough, 16x16 quick)',
+            'not_applicable_parts': [
                                      'CNL integer wrappers as Rep (elastic_integer etc.): covered through C05/C11 contracts, not re-proved here'],
             'assumptions': []}
     return {'kernels': [k], 'jobs': jobs, 'meta': meta, 'expand_leaves': True}
